@@ -375,3 +375,39 @@ PROPS["C18"]["assumptions"] = PROPS["C18"].get("assumptions", []) + [
 
 PROPS["C13"]["rule"] = PROPS["C13"]["rule"].replace("{Put a 1, Put a 2, Put b 1, Get a, Get b, Start, Stop, Abort}", "{Put a 1, Put a 2, Put b 1, Get a, Get b, Start, Stop, Abort, Dump a}").replace("quick 735 007 / thorough 8 812 634 elements", "quick 1 296 083 elements, thorough proportionally larger")
 PROPS["C13"]["assumptions"] = [a.replace("Connect/ensureTable and Dump are not modelled", "Connect/ensureTable are not modelled; the Dump iteration after the deferred Commit is modelled as the fake exhibits it (result set materialised at Query time)") for a in PROPS["C13"]["assumptions"]]
+
+# C15 at run level (agent vmdecode): Vm.Run's own decoding path
+PROPS["C15"]["prop_files"] = PROPS["C15"].get("prop_files", [PROPS["C15"]["prop_file"]]) + ["props/C15run.v"]
+PROPS["C15"]["files"] = list(dict.fromkeys(PROPS["C15"]["files"] + ["proofs/VmDecodeProofs.v", "props/C15run.v"]))
+
+# C18: third way of serving a session - State and Cache kept in memory, a NEW engine object per request (WithState/WithMemory, no persister)
+PROPS["C18"]["drivers"] = PROPS["C18"]["drivers"] + [{"name": "enginekept", "n_quick": 100, "n_thorough": 800}]
+PROPS["C18"]["model_files"] = list(dict.fromkeys(PROPS["C18"]["model_files"] + ["corr/EngineKeptCorr.v"]))
+PROPS["C18"]["rule"] = PROPS["C18"]["rule"] + (" || enginekept: the engine corpus + 3 language cases + n generated applications/histories served by a new engine object per request around the SAME State and Cache "
+                                               "objects (NewEngine.WithState.WithMemory); model request_kept (ensureState's explicit-state branch, then Exec and Flush), monitor c18_steps + "
+                                               "'a selected language changes only in a request that called a function'")
+
+# engine.Loop (agent loop): interactive driver modelled, driven and reduced to the request driver
+LOOP_MODEL = ["model/LoopModel.v", "corr/LoopCorr.v"]
+LOOP_RULE = ("engine.Loop: a fixed corpus of 26 hand-written cases over the engine corpus applications (graceful end in the middle of the input; TERMINATE; abnormal end; "
+             "refused line / over-long line; lines longer than bufio's 4096-byte buffer; Flush error from exit-value overflow and from browsing past the end; refused / over-long / "
+             "selector `initial`; unterminated tail; reader without any line feed; empty reader; blank lines with ResetOnEmptyInput; CRLF/tab/VT/FF padding; every non-ASCII Unicode "
+             "White_Space code point; byte sequences that look like white space but are not; inner space kept; entry function configured; 131-line deep cycle), one generated reader per "
+             "example application of the repository, then generated applications (genApp of the engine driver; three cases out of four are regenerated until the first request of the "
+             "real engine goes on) with a generated reader content: 0-8 lines, each = padding + token + padding + LF | CRLF | LF LF; tokens: offered selectors 64%, browse selectors 11%, "
+             "other selectors 6%, empty 5%, junk 6%, refused patterns 4%, 250-255 bytes 2%, 256-300 bytes 2%; padding: none 60%, 1-4 items of ASCII white space / all 19 non-ASCII "
+             "White_Space code points (U+0085 U+00A0 U+1680 U+2000..U+200A U+2028 U+2029 U+202F U+205F U+3000) and, in the malformed stream (1 case in 8), look-alike byte "
+             "sequences (lone C2 / A0 / 85, truncated E2 80, overlong C0 A0, U+200B, U+3001, FF, 1C, 1F, 00 ...); an unterminated last line in 1 case of 4; `initial` nil 40% / empty 30% / "
+             "a selector 20% / refused (leading space, '!bad', LF, 300 bytes) 10%. The REAL engine.Loop runs on the long-lived engine of the engine driver (WithState/WithMemory) wrapped in a "
+             "recorder implementing engine.Engine. Compared with the model: all bytes written, the class of the returned error (nil / as-is class / 'unexpected termination' / panic), the "
+             "session after Loop (every exported State and Cache field), and per request the input Loop passed, continue flag, error classes of Exec and Flush, Flush bytes and count. "
+             "non-trivial = at least 2 requests; distinct by full case term")
+for _p in ("C20", "C01"):
+    PROPS[_p]["drivers"] = PROPS[_p]["drivers"] + [{"name": "loop", "n_quick": 150, "n_thorough": 1200}]
+    PROPS[_p]["model_files"] = list(dict.fromkeys(PROPS[_p]["model_files"] + LOOP_MODEL))
+    PROPS[_p]["rule"] = PROPS[_p]["rule"] + " || interactive driver: " + LOOP_RULE
+    PROPS[_p]["assumptions"] = PROPS[_p].get("assumptions", []) + [
+        "bufio.Reader.ReadString over a reader that delivers its content and then io.EOF, and strings.TrimSpace on arbitrary bytes, are modelled (split_lines, trim_space) and checked "
+        "differentially; a reader or writer that fails, and context cancellation, are not modelled"]
+PROPS["C20"]["prop_files"] = PROPS["C20"]["prop_files"] + ["props/C20loop.v"]
+PROPS["C20"]["files"] = list(dict.fromkeys(PROPS["C20"]["files"] + ["proofs/RenderProofs.v", "proofs/SizeProofs.v", "proofs/LoopProofs.v", "props/C20loop.v"]))
